@@ -3,6 +3,7 @@
 mod util;
 mod c03;
 mod c04;
+mod c05;
 mod c07;
 mod c09;
 mod c10;
@@ -31,6 +32,7 @@ fn main() {
     match argv[0].as_str() {
         "c03" => c03::main(&args),
         "c04" => c04::main(&args),
+        "c05" => c05::main(&args),
         "c07" => c07::main(&args),
         "c09" => c09::main(&args),
         "c10" => c10::main(&args),
